@@ -56,6 +56,13 @@ func famCache(r *rng) []string {
 		res = append(res, "func tot(..){ if len(..) == 0 {return 0}; if len(..) == 1 {return first(..)}; first(..) + tot(rest(..)) }",
 			"println(tot(1,2,3,4), tot(1,2,3,4,5), tot(1,2,3,4,5,6), tot(1,2,3,4))")
 	}
+	if r.intn(3) == 0 { // a delete that finds nothing still depends on outer state
+		res = append(res, "func rm(){ del(gz) }", "println(rm())", "gz = 1", "println(rm())", "println(rm())", "gz = 2", "println(rm())")
+	}
+	if r.intn(4) == 0 { // an extension holding state of its own (images) behind a wrapper
+		res = append(res, `image.new("a", 2, 2)`, `snap = func(n){ image.png(n) }`, `p1 = snap("a")`, `image.set("a", 0, 0, [255,0,0])`,
+			`p2 = snap("a")`, `println(p1 == p2, len(p1) > 0)`)
+	}
 	if r.intn(3) == 0 { // non-deterministic extension must never be served from the cache
 		res = append(res, "rf = func(n){ rand(1) + n }", "println(rf(1) == 1, rf(1) == 1)")
 	}
@@ -149,6 +156,7 @@ func famPanic(r *rng) []string {
 	for i := 0; i < n; i++ {
 		res = append(res, cands[r.intn(len(cands))])
 	}
+	res = append(res, "m5={1:1,2:2,3:3,4:4,5:5}; for k=[1,2,3,4,5]{del(m5[k])}; println(len(m5), first(m5), rest(m5), m5)")
 	res = append(res, "println(\"still alive\")")
 	return res
 }
@@ -172,7 +180,18 @@ func famExt(r *rng, names []string) []string {
 		for i := range args {
 			args[i] = extArgKinds[r.intn(len(extArgKinds))]
 		}
-		res = append(res, n+"("+strings.Join(args, ", ")+")")
+		if r.intn(2) == 0 {
+			res = append(res, n+"("+strings.Join(args, ", ")+")")
+		} else {
+			// the same call from inside a function with the arguments held by outer variables (they arrive as references)
+			var sb strings.Builder
+			names := make([]string, k)
+			for i := range args {
+				names[i] = fmt.Sprintf("v%d", i)
+				sb.WriteString(names[i] + " = " + args[i] + "; ")
+			}
+			res = append(res, sb.String()+"fw = func(){ "+n+"("+strings.Join(names, ", ")+") }; fw()")
+		}
 	}
 	// image functions need an image first: a small dedicated sequence
 	if r.intn(4) == 0 {
